@@ -21,7 +21,15 @@
 (*  {"ev":"Pure","scn":n,"fn":"Satisfy","in":{"attrs":[["machine_id","hA"],*)
 (*     ["rack","r1,r2"]],"cts":[["rack","r1"]]},"out":true}                 *)
 (*  {"ev":"Pure","scn":n,"fn":"MergeParent","in":{"child":[[a,v]..],        *)
-(*     "parent":[[a,v]..]},"out":[[a,v]..]}                                 *)
+(*     "parent":[[a,v]..]},"out":{"merged":[[a,v]..],"parent_after":[..],   *)
+(*     "child_after":[..] (the two arguments after the call)}}              *)
+(*  {"ev":"Pure","scn":n,"fn":"SharedClass","in":{"class":[[a,v]..] (the    *)
+(*     task template's constraints),"root":[[a,v]..],"descs":[[group level, *)
+(*     task level]..] (>= 2 task roles loading the SAME class),"rounds":2,  *)
+(*     "agents":[[[name,text]..]..]},"out":{"role":[[[a,v]..] per desc]     *)
+(*     (getConstraints),"rounds":[[[[a,v]..] per desc] per round]           *)
+(*     (BuildDescriptorConstraints with ONE class registry entry for all),  *)
+(*     "sat":[[[b per agent] per desc] per round],"class_after":[[a,v]..]}} *)
 (*  {"ev":"Pure","scn":n,"fn":"RoleChain","in":{"levels":[[[a,v]..]..]      *)
 (*     (root role first, task role last),"hasclass":b,"class":[[a,v]..],    *)
 (*     "agents":[[[name,text]..]..]},"out":{"role":[[a,v]..] (the task      *)
@@ -114,9 +122,37 @@ PureSatisfy ==
      /\ nviol' = nviol + Soft("SatAllConstraints", Line.out => Sat(A, in.cts), <<SatPattern(A, in.cts, Line.out), in>>)
 
 PureMerge ==
-  LET in == Line.in IN
-  /\ Drift(Line.out = MergeParent(in.child, in.parent), <<"MergeParent", in, Line.out>>)
-  /\ nviol' = nviol + Soft("NearestWins", NearestWins(<<in.parent, in.child>>, Line.out), <<"merge", in, Line.out>>)
+  LET in == Line.in
+      o == Line.out
+  IN \* the arguments are the caller's (a role's, a task template's) constraints: they must come back as they went in
+     /\ Drift(o.merged = MergeParent(in.child, in.parent) /\ o.parent_after = in.parent /\ o.child_after = in.child,
+               <<"MergeParent", in, o>>)
+     /\ nviol' = nviol + Soft("NearestWins", NearestWins(<<in.parent, in.child>>, o.merged), <<"merge", in, o.merged>>)
+
+\* several task roles of one task class, deployed twice: the constraints of every descriptor, every round
+PureShared ==
+  LET in == Line.in
+      o == Line.out
+      n == Len(in.descs)
+      R == 1..Len(o.rounds)
+      badC == {<<r, i>> \in R \X (1..n) : ~NearestWins(ShChain(in, i), o.rounds[r][i])}
+      badP == {x \in R \X (1..n) \X (1..Len(in.agents)) :
+                 o.sat[x[1]][x[2]][x[3]] /\ ~Sat(AttrMap(in.agents[x[3]]), ShExpected(in, x[2]))}
+      refused == {x \in R \X (1..n) \X (1..Len(in.agents)) :
+                 ~o.sat[x[1]][x[2]][x[3]] /\ Sat(AttrMap(in.agents[x[3]]), ShExpected(in, x[2]))}
+      pat(B) == IF B = {} THEN "-" ELSE IF \E x \in B : x[1] = 1 THEN "within one deployment" ELSE "only in a later deployment"
+  IN /\ Drift(/\ Len(o.role) = n /\ \A i \in 1..n : o.role[i] = Merged(<<in.root, in.descs[i][1], in.descs[i][2]>>)
+              /\ Len(o.rounds) = in.rounds
+              /\ \A r \in R : Len(o.rounds[r]) = n /\ \A i \in 1..n :
+                    /\ o.rounds[r][i] = ShExpected(in, i)
+                    /\ \A k \in 1..Len(in.agents) : o.sat[r][i][k] = SatImpl(AttrMap(in.agents[k]), ShExpected(in, i))
+              /\ o.class_after = in.class,
+              <<"SharedClass", in, o>>)
+     /\ Obs("SatisfyingAgentRefused", refused = {}, <<in.class, in.root, in.descs, refused>>)
+     /\ nviol' = nviol
+          + Soft("ConstraintsPerDescriptor", badC = {},
+                 <<pat(badC), badC, in.class, in.root, in.descs, o.rounds>>)
+          + Soft("PlacedOnlyWhereSatisfied", badP = {}, <<pat(badP), badP, in.class, in.root, in.descs>>)
 
 PureChain ==
   LET in == Line.in
@@ -168,6 +204,7 @@ TPure ==
   /\ CASE Line.fn = "Satisfy" -> PureSatisfy
        [] Line.fn = "MergeParent" -> PureMerge
        [] Line.fn = "RoleChain" -> PureChain
+       [] Line.fn = "SharedClass" -> PureShared
        [] Line.fn = "ResSatisfy" -> PureFits
        [] Line.fn = "ParseRanges" -> PureParse
        [] OTHER -> Drift(FALSE, <<"unknown fn", Line.fn>>) /\ nviol' = nviol
